@@ -78,7 +78,7 @@ func (ctx *Context) Parse(value string) error {
 
 	// 设置错误消息语言
 	SetParseErrorLanguage(ctx.Config.ParseErrorLanguage)
-	_, err := p.parse(nil)
+	err := runParser(p)
 	if err != nil {
 		ctx.Error = err
 		return err
@@ -97,6 +97,22 @@ func (ctx *Context) Parse(value string) error {
 	ctx.codeIndex = p.cur.data.codeIndex
 
 	return nil
+}
+
+// runParser runs the generated parser; exceeding ParseExprLimit is reported by the
+// parser with a panic, which is turned into an ordinary error here.
+func runParser(p *parser) (err error) {
+	defer func() {
+		if r := recover(); r != nil {
+			if e, ok := r.(error); ok && errors.Is(e, errMaxExprCnt) {
+				err = errors.New("解析算力上限: 表达式过于复杂 (parse budget exceeded)")
+				return
+			}
+			panic(r)
+		}
+	}()
+	_, err = p.parse(nil)
+	return err
 }
 
 func (ctx *Context) newParserFor(data []byte) *parser {
@@ -126,7 +142,7 @@ func (ctx *Context) reparseConsumedPrefix(first *parser) *parser {
 	offset := first.pt.offset
 	for i := 0; i < 3 && offset > 0; i++ {
 		p2 := ctx.newParserFor(full[:offset])
-		if _, err := p2.parse(nil); err != nil {
+		if err := runParser(p2); err != nil {
 			return nil
 		}
 		if p2.pt.offset == offset {
